@@ -33,9 +33,12 @@ MENU_B = {
     'XOR+ge': [('XOR', ('x0', 'x1'), None), ('ge', {('x2',): 1, ('x0',): -1}, True)],
     'ne_nolog': [('ne', {('x0',): 1, ('x1',): 1, ('x2',): -1}, False)],
     'le_pair': [('le', {('x0',): 1, ('x1',): 1, (): -1}, True)],
+    'le_deep_nolog': [('le', {('x0',): 1, ('x2',): -3}, False)],
+    'ge_deep_nolog': [('ge', {('x1',): 4, ('x0',): -1, ('x2',): -1, (): -1}, False)],
 }
 # spin menus over z0,z1,z2
 MENU_S = {
+    'le_deep_nolog': [('le', {('x0',): 1, ('x2',): -2, (): 0}, False)],
     'le_sum': [('le', {('x0',): 1, ('x1',): 1, ('x2',): 1, (): -1}, True)],
     'eq': [('eq', {('x0',): 1, ('x1',): -1}, True)],
     'gt+ge': [('gt', {('x1',): 1, ('x2',): 2, (): 1}, True), ('ge', {('x0',): -2, ('x1',): -1, (): 1}, True)],
@@ -185,8 +188,8 @@ def jobs(tier, seed):
                       args=dict(spin=spin, menu=menu, form=form, U=U), budget_s=budget if tier == 'quick' else 2400, final_timeout_ms=120000))
     if tier == 'quick':
         forms = ['H', 'to_qubo', 'to_quso', 'solve_bruteforce']
-        mb = ['le_sum', 'eq+ne', 'gt_nolog', 'AND+lt', 'OR+eqAND', 'lt+le']
-        ms = ['le_sum', 'eq', 'gt+ge', 'gt+le']
+        mb = ['le_sum', 'eq+ne', 'gt_nolog', 'AND+lt', 'OR+eqAND', 'lt+le', 'le_deep_nolog']
+        ms = ['le_sum', 'eq', 'gt+ge', 'gt+le', 'le_deep_nolog']
     else:
         forms = ['H', 'to_qubo', 'to_quso', 'to_pubo', 'to_puso', 'solve_bruteforce']
         mb, ms = list(MENU_B), list(MENU_S)
